@@ -835,4 +835,32 @@ theorem concrete_present {name : String} {ms : List (String × MemberSpec)} {o :
     obtain ⟨a, ha, rfl, hv⟩ := dsCollect_keys_present (args := args) hKe hkKe
     exact ⟨(hok a ha).1, (hok a ha).2, hv⟩
 
+/-! ### fixtures for the non-vacuity examples and witnesses of `LabreaProps/C19.lean` -/
+
+/-- members on `A` and on `A.X` (prefix overlap), a defaulted `B.Y`, a constant, a dataset -/
+def cOverlap : DsClass := concreteClass "C"
+  [("a", .opt ⟨["A"], Option.none⟩), ("ax", .opt ⟨["A", "X"], Option.none⟩),
+   ("b", .opt ⟨["B", "Y"], some (.int 3)⟩), ("c", .const (.int 9)),
+   ("d", .ds [⟨["S", "T", "U"], some (.int 5)⟩])]
+/-- one member on the nested key `A.X` -/
+def cAX : DsClass := concreteClass "C" [("x", .opt ⟨["A", "X"], Option.none⟩)]
+
+def oXY : V := .dict [("A", .dict [("X", .int 2), ("Y", .int 3)]), ("Z", .int 5)]
+/-- `oXY` with another key order and another irrelevant `Z` -/
+def oYX : V := .dict [("Z", .int 7), ("A", .dict [("Y", .int 3), ("X", .int 2)])]
+/-- `oXY` with another `A.X` -/
+def oX9 : V := .dict [("A", .dict [("X", .int 9), ("Y", .int 3)]), ("Z", .int 5)]
+
+theorem cOverlap_keysOK : ∀ m ∈ [("a", MemberSpec.opt ⟨["A"], Option.none⟩),
+    ("ax", .opt ⟨["A", "X"], Option.none⟩), ("b", .opt ⟨["B", "Y"], some (.int 3)⟩),
+    ("c", .const (.int 9)), ("d", .ds [⟨["S", "T", "U"], some (.int 5)⟩])], m.2.KeysOK := by
+  intro m hm
+  simp at hm
+  rcases hm with rfl | rfl | rfl | rfl | rfl
+  · exact ⟨by decide, by decide⟩
+  · exact ⟨by decide, by decide⟩
+  · exact ⟨by decide, by decide⟩
+  · trivial
+  · intro a ha; simp at ha; subst ha; exact ⟨by decide, by decide⟩
+
 end Labrea.DatasetClass
